@@ -63,7 +63,11 @@ impl StreamBuffer {
     {
         self.pos = 0;
         self.grow_for_read_remaining(remaining);
-        let cap = fill(&mut self.data)?;
+        // Don't ask for more than `remaining` bytes: the stream may have been
+        // extended through another handle, and a window that reaches past
+        // the length this handle knows would put its position past its end.
+        let max_len = remaining.min(self.data.len() as u64) as usize;
+        let cap = fill(&mut self.data[..max_len])?;
         self.set_cap(cap);
         Ok(())
     }
